@@ -137,6 +137,16 @@ def check(run):
     ret = [n for n in walk_local(pick.node) if isinstance(n, ast.Return)]
     ok = bool(calls) and bool(ret) and all(calls[0].lineno < r.lineno for r in ret)
     run.ob("C22.R2", "%s:verify-before-return" % pick.fq, ok, run.site(pick), "" if ok else "pick() can return before the signature is verified")
+    # the signer of a gram that carries no signer id is whoever signed the memo's zeroth gram (self.vids); when that is not known yet the
+    # lookup must yield nothing (verify() then rejects), never a fallback identity such as the receiver's own vid
+    lookups = [n for n in walk_local(pick.node) if isinstance(n, ast.Call) and isinstance(n.func, ast.Attribute) and n.func.attr == "get"
+               and dotted(n.func.value) == "self.vids"]
+    for i, n in enumerate(lookups):
+        dflt = n.args[1] if len(n.args) > 1 else next((k.value for k in n.keywords if k.arg == "default"), None)
+        ok = dflt is None or (isinstance(dflt, ast.Constant) and not dflt.value)
+        run.ob("C22.R2", "%s:unknown-signer-is-nobody:%d" % (pick.fq, i), ok, run.site(pick, n),
+               "" if ok else "`%s` substitutes `%s` when no gram of this memo has been accepted yet: a continuation gram signed by that identity is "
+               "verified and stored before any zeroth gram named the memo's signer, and pins the memo to it" % (unparse(n), unparse(dflt)))
     ver = ix.func(MM, "Memoer.verify")
     res2 = Interp(VerifyDomain(), run.lat).run(ver.node)
     run.paths += len(res2)
